@@ -5,6 +5,9 @@ CONSTANTS
   SortBeforeFill = TRUE
   OutsideRule = "zero"
   BoundsRule = "given"
+  Layouts = {"k"}
+  KField = "second"
+  HeadFrom = "start"
   QTemps = {200}
   Export = FALSE
 INVARIANT NeverUnsortedBand
